@@ -70,6 +70,9 @@ func runC08(c *ShardCtx) {
 			// differ from the reference; what must agree is the final store (snapshot
 			// taken by the wrapper's probe), the value and the errors
 			extra: finalStoreOracle}
+		if len(inputs) > 0 && len(inputs[len(inputs)-1]) > 20 {
+			fam.refOpts = func(o *peg.Options) { o.MaxEval = 5000000 }
+		}
 		if leader != "" {
 			// indirect cycle: the cycle's leader (alphabetically first rule lying on
 			// all cycles - computed here, not taken from the tool) grows the seed,
@@ -184,6 +187,44 @@ func runC08(c *ShardCtx) {
 			run(mk(&peg.Rule{Name: "E", Expr: peg.Choice(bin("E", "a", "T"), peg.Ref("T"))}, &peg.Rule{Name: "T", Expr: atom.Clone()}), inputsABC, false, def)
 			run(mk(&peg.Rule{Name: "E", Expr: peg.Choice(bin("E", "a", "T"), peg.Ref("T"))}, &peg.Rule{Name: "T", Expr: peg.Choice(bin("T", "b", "F"), peg.Ref("F"))}, &peg.Rule{Name: "F", Expr: atom.Clone()}), inputsABC, variant == 1, def)
 		}
+	}
+	// (d) long inputs: chains of up to 24 operands (every operator pattern of period <= 3, with and
+	// without a dangling operator or a closing token) through towers whose upper level looks at the
+	// seed again AFTER a nested leader has been started further on: what the growth loops keep per
+	// offset must not depend on how many offsets have been visited before
+	{
+		var long [][]byte
+		pats := []string{"a", "b", "ab", "ba", "aab", "abb"}
+		for k := 1; k <= 24; k++ {
+			for _, p := range pats {
+				s := "c"
+				for i := 1; i < k; i++ {
+					s += string(p[(i-1)%len(p)]) + "c"
+				}
+				long = append(long, []byte(s), []byte(s+"d"), []byte(s+"a"))
+			}
+		}
+		savedOpts := opts
+		opts = []rtapi.RunOpts{{MaxExpr: 400000, TickCap: 20000000}, {MaxExpr: 400000, TickCap: 20000000, Memoize: true}}
+		for variant := 0; variant < 2; variant++ {
+			bin := func(l, op, r string, more ...*peg.Expr) *peg.Expr {
+				if variant == 0 {
+					return peg.Seq(append([]*peg.Expr{peg.Ref(l), lit(op), peg.Ref(r)}, more...)...)
+				}
+				return peg.Action(0, peg.Seq(append([]*peg.Expr{peg.Label("l", peg.Ref(l)), lit(op), peg.Label("r", peg.Ref(r))}, more...)...))
+			}
+			for _, gr := range []*peg.Grammar{
+				mk(&peg.Rule{Name: "E", Expr: peg.Choice(bin("E", "a", "T", lit("d")), bin("E", "a", "T"), peg.Ref("T"))}, &peg.Rule{Name: "T", Expr: peg.Choice(bin("T", "b", "F"), peg.Ref("F"))}, &peg.Rule{Name: "F", Expr: lit("c")}),
+				mk(&peg.Rule{Name: "E", Expr: peg.Choice(bin("E", "a", "T"), peg.Ref("T"))}, &peg.Rule{Name: "T", Expr: peg.Choice(bin("T", "b", "F"), peg.Ref("F"))}, &peg.Rule{Name: "F", Expr: lit("c")}),
+				mk(&peg.Rule{Name: "A", Expr: peg.Choice(peg.Seq(peg.Ref("A"), lit("a"), lit("c")), peg.Seq(peg.Ref("A"), lit("b"), lit("c"), peg.And(lit("a"))), peg.Seq(peg.Ref("A"), lit("b"), lit("c")), lit("c"))}),
+			} {
+				if c.Expired("long input family") {
+					return
+				}
+				run(gr, long, false, def)
+			}
+		}
+		opts = savedOpts
 	}
 	// (c) indirect pairs
 	for _, names := range [][2]string{{"A", "B"}, {"B", "A"}} {
